@@ -158,6 +158,8 @@ func (e *Engine) verifyFunction(c *Contract, init *State) (res *FuncResult) {
 	for _, cl := range c.Ensures {
 		g := e.evalClause(nil, cl, args, resArgs, out, entry, pcOut)
 		e.addObl(nil, "ensures", cl.Label, cl.Props, pcOut, g, fmt.Sprintf("%s:%d", strings.TrimPrefix(c.File, "/repo/"), cl.Line))
+		e.obls[len(e.obls)-1].contract = c
+		e.obls[len(e.obls)-1].clause = cl
 	}
 	// vacuity guards: the preconditions are satisfiable and a normal exit is reachable
 	e.addCover("cover", "pre", True)
